@@ -372,6 +372,20 @@ def run_layers(kinds, client_alpn):
     ta.tls_start_client(ts)
     return {"pin": opt_hex(ts.ssl_conn.get_app_data()["client_alpn"]), "n_layers": len(ctx.layers)}
 
+def run_quic(client_alpn, server_alpn, offers):
+    """the real TlsConfig.quic_start_client (what list of protocols aioquic is configured with) and aioquic's own
+    `tls.negotiate` on that list and the client's offers"""
+    from aioquic.tls import negotiate
+    from mitmproxy.proxy.layers import quic
+    ta, tctx = tls_addon()
+    ctx = make_ctx(tctx, offers, server_alpn, False, client_alpn=client_alpn)
+    ctx.client.transport_protocol = "udp"
+    ts = quic.QuicTlsData(ctx.client, context=ctx)
+    ta.quic_start_client(ts)
+    lst = list(ts.settings.alpn_protocols)
+    sel = negotiate(lst, [o.decode("ascii") for o in offers])
+    return {"alpns": [hx(x.encode("ascii")) for x in lst], "selected": "none" if sel is None else hx(sel.encode("ascii"))}
+
 
 class Check(PropertyCheck):
     prop = "C18"
@@ -477,6 +491,11 @@ class Check(PropertyCheck):
         def proto():
             return rng.pick(cls) if rng.chance(0.8) else rng.pick(pool) if rng.chance(0.7) else rng.bytes_(rng.randint(0, 6))
 
+        # QUIC clients: quic_start_client's protocol list + aioquic's negotiation
+        for o in ([b"h3"], [b"h3", b"h3-29"], [b"h3-29", b"h3"], [H2, H11], []):
+            for sa in (None, b"", b"h3", b"h3-29", H11):
+                for ca in (None, b"h3", b"qux", b""):
+                    yield {"op": "quic", "c": opt_hex(ca), "s": opt_hex(sa), "offers": [hx(x) for x in o]}
         # which handshake is the secure web proxy's outer one: tls_start_client on real layer lists
         stacks = [["hp", "ctls", "http"], ["hp", "ctls"], ["hp", "http", "stls", "ctls"], ["hp", "ctls", "http", "stls", "ctls"],
                   ["hp", "ctls", "http", "ctls"], ["hup", "ctls", "http"], ["mode", "stls", "ctls"], ["hp"], ["hp", "http"],
@@ -515,6 +534,12 @@ class Check(PropertyCheck):
                 yield {"op": "srv", "client_offers": [hx(x) for x in o], "preset": [hx(H11)], "http2": h}
         while True:
             r = rng.random()
+            if rng.chance(0.01):
+                ap = lambda: rng.pick([b"h3", b"h3-29", H2, H11, b"qux", b"hq-interop"])
+                offers = [ap() for _ in range(rng.randint(0, 4))]
+                yield {"op": "quic", "c": opt_hex(rng.pick([None, None, None, b"", ap()])),
+                       "s": opt_hex(rng.pick([None, b"", ap(), rng.pick(offers) if offers else ap()])), "offers": [hx(x) for x in offers]}
+                continue
             if rng.chance(0.01):
                 n = rng.randint(1, 6)
                 kinds = [rng.pick(["hp", "hp", "hup", "mode"])] + [rng.pick(LAYER_KINDS[3:]) for _ in range(n - 1)]
@@ -558,6 +583,8 @@ class Check(PropertyCheck):
             return {"r": opt_hex(r)}
         if op == "layers":
             return run_layers(case["kinds"], opt_unhex(case["c"]))
+        if op == "quic":
+            return run_quic(opt_unhex(case["c"]), opt_unhex(case["s"]), [unhx(x) for x in case["offers"]])
         if op == "nested":
             import json
             obs = run_nested([unhx(x) for x in case["outer"]], [unhx(x) for x in case["offers"]], case["up"], case["http2"], case["eager"])
@@ -599,6 +626,8 @@ class Check(PropertyCheck):
             c, s = opt_unhex(case["c"]), opt_unhex(case["s"])
             offers = [unhx(x) for x in case["offers"]]
             return self.judge(c, s, case["http2"], offers, opt_unhex(obs["r"]), swp=(c == H11) or None)
+        if op == "quic":
+            return []       # tie of the new transcription only (round 5 rule: no new oracle clauses); see level_note
         if op == "layers":
             return []       # AppData is internal: tied to the model; the sentences are judged on negotiated protocols (hs/stack/nested)
         if op == "nested":
@@ -720,6 +749,8 @@ class Check(PropertyCheck):
             return [f"cb {case['c']} {case['s']} {int(case['http2'])} " + (",".join(case["offers"]) or "nil")]
         if op == "layers":
             return [f"pin {','.join(case['kinds'])} {case['c']}"]
+        if op == "quic":
+            return [f"quic {case['c']} {case['s']} " + (",".join(case["offers"]) or "nil")]
         if op == "nested":
             # the model predicts the outer selection from (swp, outer offers) and the inner one from
             # (inner offers, upstream protocol, http2, addon pin = none) only: nothing of the outer session may leak in
@@ -762,6 +793,7 @@ class Check(PropertyCheck):
     def impl_view(self, case, obs):
         op = case["op"]
         if op == "layers": return obs["pin"]
+        if op == "quic": return (",".join(obs["alpns"]) or "nil") + " " + obs["selected"]
         if op == "nested":
             g = lambda v: "none" if v == "-" else v
             v = []
@@ -787,11 +819,13 @@ class Check(PropertyCheck):
         if case["op"] == "layers": return ("layers", tuple(case["kinds"]), case["c"])
         key = "offers" if case["op"] != "srv" else "client_offers"
         if not case[key]: return None
-        return (case["op"], case.get("c"), case.get("s"), case["http2"], tuple(case[key]), case.get("swp"), tuple(case.get("preset", ())),
+        return (case["op"], case.get("c"), case.get("s"), case.get("http2"), tuple(case[key]), case.get("swp"), tuple(case.get("preset", ())),
                 case.get("up"), case.get("eager"), tuple(case.get("outer", ())))
 
     def branches(self, case, obs):
         op = case["op"]
+        if op == "quic":
+            return ["quic:" + ("pins" if (case["c"] not in ("none", "-") or case["s"] not in ("none", "-")) else "client-offers") + ":" + ("selected" if obs["selected"] != "none" else "none")]
         if op == "layers":
             return ["layers:" + ("override" if obs["pin"] == hx(H11) and case["c"] != hx(H11) else "client.alpn") + f":n={min(len(case['kinds']), 5)}"]
         if op == "nested":
